@@ -12,11 +12,34 @@ OT = 'other'
 CHECKS = {
     'C10': (TV, 'A', 'SMT/SAT equivalence of the real cardinality CNF against pseudo-Boolean reference; '
                      'definability closure for exists-aux; uniqueness miter',
-            'For every n<=10 (thorough 16), k<=n+3, EQ/LT/GT and three variable-list shapes, the clause list from the real '
+            'For every n<=10 (thorough 20), k<=n+3, EQ/LT/GT and three variable-list shapes, the clause list from the real '
             'combine_cnf_with_requests is proved (unsat) sound, complete and uniquely extensible over all 2^n input '
             'assignments; counterexamples are replayed through cnf_is_satisfiable.',
             'Trusts z3 5.1 and CryptoMiniSat, the 150-line closure/glue in vf/sat.py, and the reading LT=fewer than k, '
             'GT=more than k. Outside: n beyond the bound.', '6 C10'),
+    'C11': (TV, 'A', 'SMT equivalence of the real CNF conversions against an independent z3 translation of each formula; '
+                     'z3 forall / definability closure for exists-new; uniqueness miter',
+            'Every formula up to 4 (thorough 5) nodes over 4 literals with And/Or arity 0..3, Not, If, Iff, plus seeded '
+            'samples of larger ones with shared sub-formulas, is pushed through to_cnf_tseitin / naive / switching and '
+            'cnf_to_json; soundness, completeness, uniqueness of Tseitin variables and the fresh range are decided by '
+            'z3 with all variables symbolic; exceptions count as violations; counterexamples are replayed by truth table.',
+            'Trusts z3 and the 20-line formula-to-z3 translation (And([])=true, Or([])=false). The quantifier over '
+            'formulas is enumeration/sampling, stated in the evidence.', '6 C11'),
+    'C12': (TV, 'A', 'SMT check of each adder/pop-count builder against integer arithmetic (z3 LIA; SAT miter against an '
+                     'independent unary counter above 12 inputs); closure for totality; uniqueness miter',
+            'Each builder of core/cnf.py is called with concrete input variables and its clauses are proved to force the '
+            'outputs to the binary (saturating) sum for every input assignment, to be extensible for every input and to '
+            'leave no other freedom; widths up to 6/8, pop counts up to 12/20 inputs, saturate_at 0..6.',
+            'Saturating specification: top bit set iff true sum >= 2^(saturate_at-1), exact when clear (what '
+            'assert_k_of_n relies on). Trusts z3/CryptoMiniSat and vf/sat.py.', '6 C12'),
+    'C28': (TV, 'A', 'independent OPB reader to z3 linear constraints; SMT equivalence with the real SAT encoding '
+                     '(closure for exists-aux) and with the pseudo-Boolean meaning; blocking constraint equivalence',
+            'For a sweep of requests (EQ/LT/GT, n<=5/7, k<=n+2) and seeded random clause sets with requests, the text '
+            'written by the real combine_and_save_opb is parsed independently and decided equivalent to exists-aux of the '
+            'real combine_cnf_with_requests output over all assignments; the constraint appended by sample_ilp.update_file '
+            'is decided equal to the negated cube for every sign pattern up to 4/6 variables.',
+            'Gurobi is not needed and not present; the OPB reader in vf/props/c28.py is trusted. Replay evaluates the '
+            'text concretely and asks the library SAT path.', '6 C28'),
 }
 
 NOT_APPLICABLE = {
